@@ -12,9 +12,10 @@
               "k2_p_e":  ["-DV_K=2", "-DV_S0=SP_GNU_PACKED", "-DV_S1=SP_EMPTY", "-DV_S2=0"],
               "k3_e_fp_f": ["-DV_K=3", "-DV_S0=SP_EMPTY", "-DV_S1=SP_FOO_GNU_PACKED", "-DV_S2=SP_FOO"]},
  "canary_variant": "k2_f_p",
+ "cbmc_flags": ["--sat-solver", "cadical"],
  "kind": "bounded",
  "bound": "6 shapes (token kinds constant per CBMC run, the rest symbolic) of 0..3 attribute specifiers in a row, each `[[]]`, `[[foo]]`, `[[gnu::packed]]` or `[[foo, gnu::packed]]`, followed by one of `;`, an identifier, or `[ 1 ]` (an array declarator, which starts with a single `[`)",
- "timeout": 200, "replay": false,
+ "timeout": 600, "replay": false,
  "assumes": ["next/peek/consume/expect are token-script stand-ins with pp.c's meaning (attr_common2.h); what one specifier may contain is ATTR.attrspec's business"]
 }
 */
